@@ -195,6 +195,19 @@ def eval_point(pt, R):
                 aq, rq, kq = spectrum.arburg(x, qsel)
                 R.check(close(ac, np.asarray(aq), 1e-12, 1e-14) and abs(rc_ - rq) <= 1e-12 * abs(rq) and close(kc, np.asarray(kq), 1e-12, 1e-14), 'criteria', dict(feats, crit=crit), ptc,
                         [ac, rc_], [aq, rq], 'result with a criterion is not exactly the Burg model of order len(a)', outs=(ac, crit))
+        if (p == pmax or p in (2, 5)) and N >= 8:
+            # the class with a criterion exposes exactly the model the function returns for the same criterion
+            for crit in ('AIC', 'MDL', 'FPE'):
+                R.calls(2)
+                try:
+                    ac, rc_, kc = spectrum.arburg(x, p, crit)
+                    oc = spectrum.pburg(x, p, criteria=crit)
+                    oc()
+                    okc = len(np.asarray(oc.ar)) == len(np.asarray(ac)) and close(np.asarray(oc.ar), np.asarray(ac), 1e-12, 1e-14) and \
+                        len(np.asarray(oc.reflection)) == len(np.asarray(kc)) and close(np.asarray(oc.reflection), np.asarray(kc), 1e-12, 1e-14) and abs(oc.rho - rc_) <= 1e-12 * abs(rc_)
+                    R.check(okc, 'pburg', dict(feats, crit=crit), dict(ptp, criteria=crit), [oc.ar, oc.rho], [ac, rc_], 'pburg(criteria=...).ar/.rho/.reflection differ from arburg with the same criterion')
+                except Exception as e:
+                    R.viol('pburg', dict(feats, crit=crit, exc=type(e).__name__), dict(ptp, criteria=crit), repr(e), None, 'pburg with a criterion raised')
         if (p == pmax or p == 2) and p >= 2 and N >= 8:
             # history on one pburg object: compute, change the criteria attribute, recompute explicitly
             for c1, c2 in ((None, 'AIC'), ('AIC', None), ('MDL', 'FPE')):
